@@ -332,6 +332,9 @@ var profC04 = profile{
 		c.OneTimeTOTP = chance(t, "onetime4", 50)
 		c.EmailAuth = false
 		c.Middleware = ""
+		// an application listener on the failed-attempt event that answers the request itself (registered through the public
+		// Events API ahead of the modules): the attempt is counted all the same
+		c.AppAuthFailHook = chance(t, "appauthfail", 25)
 		for i := range c.Accounts {
 			a := &c.Accounts[i]
 			a.Unconfirmed = false
